@@ -50,7 +50,14 @@ def prepare(rundir):
         src = src.replace(a, b)
     os.makedirs(os.path.join(d, "chanimpl"), exist_ok=True)
     open(os.path.join(d, "chanimpl", "z_chan.go"), "w").write(src)
-    open(os.path.join(d, "chanimpl", "shim.go"), "w").write(SHIM % "chanimpl")
+    open(os.path.join(d, "chanimpl", "shim.go"), "w").write(SHIM % "chanimpl" + """
+// ResetCapForVerif re-creates the buffer of a freshly allocated channel header with another capacity
+// (the harness first allocates all headers, sorts them by address, then assigns capacities).
+func ResetCapForVerif(p *Chan, eltSize, capa int) {
+	q := NewChan(eltSize, capa)
+	p.data, p.cap = q.data, q.cap
+}
+""")
     # semaphores / notify list
     src = open(os.path.join(C.REPO, "runtime/internal/lib/runtime/sema_llgo.go")).read()
     src = re.sub(r"^//go:build.*\n", "", src, count=1, flags=re.M)
